@@ -54,7 +54,8 @@ Spec == Init /\ [][Next]_i
 C07 == LET e == Log[i] IN ~IsViolation(Verdict(WorldOfRec(e), ReqOfRec(e), e.obs))
 
 ---------------------------------------------------------------------------
-\* the report: ONE pass over the log, every case judged once (TLC does not memoise J[k])
+\* the report: ONE pass over the log, every case judged once (TLC does not memoise function applications);
+\* at most 3 examples are kept per distinct kind of violation
 One(b) == IF b THEN 1 ELSE 0
 Acc0 == [line |-> 0, accepted |-> 0, signed_ok |-> 0, refused |-> 0, must_refuse |-> 0, impl_stricter |-> 0,
          panics |-> 0, changed_on_refusal |-> 0, sole |-> [r \in RuleNames |-> 0],
@@ -62,7 +63,11 @@ Acc0 == [line |-> 0, accepted |-> 0, signed_ok |-> 0, refused |-> 0, must_refuse
 StepAcc(acc, e) ==
   LET j == Judge(e)
       n == acc.line + 1
-      bad == IsViolation(j.v) IN
+      bad == IsViolation(j.v)
+      vrec == [line |-> n, i |-> e.i, v |-> j.v, fail |-> SetToSeq(j.fail),
+               note |-> FeeNote(WorldOfRec(e), ReqOfRec(e)), tag |-> e.obs.tag, sig |-> e.obs.sig]
+      same(x) == x.v = j.v /\ x.fail = SetToSeq(j.fail) /\ x.sig = e.obs.sig /\ x.note = vrec.note
+      keep == bad /\ Cardinality({k \in DOMAIN acc.violations : same(acc.violations[k])}) < 3 IN
   [line |-> n,
    accepted |-> acc.accepted + One(e.obs.ok),
    signed_ok |-> acc.signed_ok + One(j.v = "signed_ok"),
@@ -73,11 +78,7 @@ StepAcc(acc, e) ==
    changed_on_refusal |-> acc.changed_on_refusal + One(~e.obs.ok /\ e.obs.changed),
    sole |-> [r \in RuleNames |-> acc.sole[r] + One(~e.obs.ok /\ r \in j.sole)],
    nviolations |-> acc.nviolations + One(bad),
-   violations |-> IF bad /\ Len(acc.violations) < 500
-                  THEN Append(acc.violations, [line |-> n, i |-> e.i, v |-> j.v, fail |-> SetToSeq(j.fail),
-                                               note |-> FeeNote(WorldOfRec(e), ReqOfRec(e)),
-                                               tag |-> e.obs.tag, sig |-> e.obs.sig])
-                  ELSE acc.violations,
+   violations |-> IF keep THEN Append(acc.violations, vrec) ELSE acc.violations,
    ndivergent |-> acc.ndivergent + One(~j.conf),
    divergences |-> IF ~j.conf /\ Len(acc.divergences) < 40
                    THEN Append(acc.divergences, [line |-> n, i |-> e.i,
